@@ -37,7 +37,7 @@ ASSUMPTIONS = [
 
 NODE_OK = iso.eq_on(["element", "charge"], {"element": "*", "charge": 0})
 EDGE_OK = iso.eq_on(["order"], {"order": 1})
-ATTR_KINDS = [None, "size", "elems", "charges", "orders", "const", "list_elems", "list_deg", "dict_elems"]
+ATTR_KINDS = [None, "size", "elems", "charges", "orders", "const", "list_elems", "list_deg", "dict_elems", "dict_elems_raw", "dict_elems_raw"]
 RULE_KEYS = ["RC", "rc", "gml"]
 ATTR_KEY = "sig"
 
@@ -127,6 +127,14 @@ def attr_of(g, kind):
         return sorted(dg for _, dg in g.degree())
     if kind == "dict_elems":  # element -> count, like the repo's own 'atom_count' descriptor
         return {e: els.count(e) for e in els}
+    if kind == "dict_elems_raw":
+        # the same mapping with keys in first-seen NODE order (what dict(Counter(...)) gives): equal as a value for
+        # isomorphic graphs, but its key order follows the node order of each copy
+        out = {}
+        for _, d in g.nodes(data=True):
+            e = str(d.get("element", "*"))
+            out[e] = out.get(e, 0) + 1
+        return out
     raise ValueError(kind)
 
 
